@@ -6,7 +6,8 @@ LEVEL = "proof"
 THEOREMS = ["C09_projection", "C09_projection_dist", "C09_max_lift", "C09_max_u_ge", "C09_max_u_formula",
             "C09_max_keeps_projection", "C09_max_wf", "C09_zero_mass", "C09_idempotent",
             "C09_maximized_sums_to_one", "C09_maximized_sums_to_one_of_card", "C09_maximized_sums_to_one_of_sum_lt_two",
-            "C09_maximized_gen_lift"]
+            "C09_maximized_gen_lift", "C09_max_lift_clamped", "C09_max_lift_of_band", "C09_maximized_gen_unit",
+            "C09_maximized_masses_nonneg_gen", "C09_maximized_masses_nonneg_of_operands"]
 EXTRA_MODULES = [("SLV.Props.OracleSpec", ("OS_projQ", "OS_maxUQ"))]
 RULE = ("ops proj/maxu/umax on well-formed opinions: random dyadic grids (1/4..1/64) with zero base rates, "
         "vacuous/dogmatic/zero-mass opinions, arbitrary floats; n=1..4; "
@@ -20,7 +21,12 @@ RULE = ("ops proj/maxu/umax on well-formed opinions: random dyadic grids (1/4..1
         "Opinion::try_new accepts the operand, Simplex::try_new must accept the maximised simplex (clause "
         "C09.maximized_accepted_by_constructor, claimed for at most 8 cells: for 12 cells the re-summed normalised masses miss the "
         "4-ulp band by plain rounding, sum = 1-2.5eps, in 20-60 cases per million; 8 cells about 2 per million; fewer cells none in "
-        "2 million). non-trivial = implementation returned a value and the case line is distinct")
+        "2 million). STRICT sign clause C09.max_masses_nonneg (repair 8520ade: the rounding residue of the zero mass is clamped): on "
+        "every ok, finite umax result whose operand entries are all >= 0 exactly (no condition on sums or bands) every mass is >= 0 "
+        "exactly and u' is in [0, 1] exactly, values decoded from the output bits; before the repair the dyadic / decimal / arbitrary-float "
+        "umax streams returned a negative mass in 27 of the 2253 quick-tier cases. Replay lines: the band witnesses ([0,1],0,[eps - k ulps, 1]), "
+        "k=0..3, f64 and f32 (k=0 was rejected by Simplex::try_new: b'=-eps(1+2^-52), u'=1+2^-52), with acc. "
+        "non-trivial = implementation returned a value and the case line is distinct")
 EXHAUSTIVE = {}
 nontrivial = default_nontrivial
 
@@ -99,7 +105,10 @@ from .common import LEVEL_NOTE, TECHNIQUE  # noqa: E402
 LEVEL_TEXT = ("Kernel-checked theorems for every domain size and every rational well-formed opinion: the model's projection is "
               "b+a*u (a distribution), uncertainty_maximized returns a well-formed simplex with the same projection, u'>=u, "
               "u' = min(1, min_{a>eps} P/a), a zero mass unless vacuous, idempotent; for ANY non-negative simplex / base rate whose projection exists "
-              "(no condition on sum(a)) the maximised simplex sums to exactly 1 (false before repair f029db5). The model is tied to the code by running "
+              "(no condition on sum(a)) the maximised simplex sums to exactly 1 (false before repair f029db5); for ALL operands of the exact semantics "
+              "(ill-formed, infinities, NaN) whose max_uncertainty does not compare below zero no mass of the maximised simplex compares below zero and "
+              "u' does not compare above one (false before repair 8520ade; the model clamps p - a*u_max at zero like the code; with a base-rate entry "
+              "inside the guard band (0, eps] the closed form is the clamped, renormalised one, C09_max_lift_clamped). The model is tied to the code by running "
               "proj/maxu/umax of the real crate in all container families and both precisions against the exact model, and the "
               "theorem predicates are evaluated on the implementation's outputs.")
 
